@@ -104,6 +104,10 @@ func runC06case(t *vf.T, pool *sessionPool, c c06case) {
 	defer probes.Delete(f.Run)
 	msg := fmt.Sprintf("verif-user-failure-%d", t.Index())
 	f.Fail = &FailSpec{Node: node, Mode: c.Mode, AtCall: at, Persist: c.Persist, Msg: msg}
+	runRPCs0 := 0
+	if ls.IP != nil {
+		runRPCs0 = ls.IP.count("Worker.Run")
+	}
 	out := runSpec(ls, f, [2]bigslice.Slice{}, true, 180*time.Second)
 	calls := int(callsOf(f.Run, node))
 	if out.TimedOut {
@@ -112,10 +116,12 @@ func runC06case(t *vf.T, pool *sessionPool, c c06case) {
 		// the retries are unbounded; otherwise the watchdog firing is inconclusive.
 		if calls > 8*total+50 {
 			t.Violate(sig+" unbounded-retries", fmt.Sprintf("Run still running after 180 s and %d invocations of the failing function (a failure-free run makes %d)", calls, total))
-		} else if ls.IP != nil && ls.IP.count("Worker.Run") > 60 {
-			t.Violate(sig+" unbounded-retries", fmt.Sprintf("Run still running after 180 s and %d Worker.Run RPCs for a program of a handful of tasks", ls.IP.count("Worker.Run")))
+		} else if ls.IP != nil && ls.IP.count("Worker.Run")-runRPCs0 > 60 {
+			t.Violate(sig+" unbounded-retries", fmt.Sprintf("Run still running after 180 s and %d Worker.Run RPCs for a program of a handful of tasks", ls.IP.count("Worker.Run")-runRPCs0))
+		} else if out.Stalled {
+			t.Violate(sig+" hang", "Run did not return within 180 s and no RPC other than keepalive/stats polling started or finished during the last 120 s (goroutine dump kept)")
 		} else {
-			t.Inconclusive("watchdog: Run did not return within 180 s for " + sig)
+			t.Inconclusive("watchdog: Run did not return within 180 s for " + sig + " (" + out.Quiet + ")")
 		}
 		pool.drop(c.Conf)
 		return
